@@ -87,7 +87,9 @@ def cases(draw, tier):
             "flag": draw(st.booleans()), "flag2": draw(st.booleans()),
             "n": draw(st.integers(1, 7)), "m": draw(st.integers(1, 7)),
             "f": draw(st.sampled_from(["add", "max", "first", "count",
-                                       "sub1"])),
+                                       "sub1", "builtin_max", "builtin_min",
+                                       "operator_add", "np_maximum",
+                                       "np_minimum", "np_add"])),
             "sub": kind in ("summarize", "table_ids", "head",
                             "export_metadata") and
             draw(st.sampled_from([False] * 40 + [True]))}
@@ -224,9 +226,15 @@ def _check(case, rec, t):
     elif kind == "reduce":
         ax = axis if axis != "whole" else "sample"
         import functools
+        import operator
+        # (also the functions themselves, not wrapped in a lambda: reduce
+        # folds the complete vector, zeros included, whatever f is)
         f = {"add": lambda a, b: a + b, "max": lambda a, b: max(a, b),
              "first": lambda a, b: a, "count": lambda a, b: a + 1,
-             "sub1": lambda a, b: a - b + 1}[case["f"]]
+             "sub1": lambda a, b: a - b + 1, "builtin_max": max,
+             "builtin_min": min, "operator_add": operator.add,
+             "np_maximum": np.maximum, "np_minimum": np.minimum,
+             "np_add": np.add}[case["f"]]
         vecs = ref.vectors(ax)
         # the left fold over the complete dense vector
         want = [functools.reduce(f, v) for v in vecs]
@@ -497,6 +505,10 @@ def enum_chunk(tier, n):
         # first units
         vals = [1.0 + (extra // n) + (1.0 if k < extra % n else 0.0)
                 for k in range(n)]
+        if extra % 5 == 4:
+            # large totals with a tiny spread (one-pass variance formulas
+            # cancel catastrophically here)
+            vals = [1e8 + float((k * 7 + extra) % 4) for k in range(n)]
         obs_mode = extra % 2 == 1
         ids = ["u%d" % k for k in range(n)]
         spec = {"obs": ids if obs_mode else ["only"],
